@@ -48,7 +48,7 @@ def merge_order(m):
             return "own"
         return None
     for n in walk_no_nested(m.node):
-        if isinstance(n, ast.Call) and isinstance(n.func, ast.Attribute) and n.func.attr == "update" and n.args:
+        if isinstance(n, ast.Call) and isinstance(n.func, ast.Attribute) and n.func.attr in ("update", "extend") and n.args:
             a, b = side(n.func.value), side(n.args[0])
             if a and b and a != b:
                 return a + "-first"
@@ -231,17 +231,32 @@ def run(ctx):
     cfg = ctx.cfg(m)
     want = {"has_argument": "an argument of that name exists", "has_multi_valued_argument": "a multi-valued argument exists already",
             "has_optional_argument": "a required argument after an optional one"}
+    # the checks may sit in a private helper that add_argument calls (with the argument) before it writes anything
+    check_cfgs = [cfg]
+    first_writes = [n for n in cfg.nodes if n.kind == "stmt" and n.ast is not None and any(
+        isinstance(s_, (ast.Assign, ast.AugAssign)) and any(is_self_attr(t) or q.self_attr_root(t) is not None for t in (s_.targets if isinstance(s_, ast.Assign) else [s_.target]))
+        for s_ in walk_no_nested(n.ast))]
+    for c in q.calls(m):
+        if isinstance(c.func, ast.Attribute) and isinstance(c.func.value, ast.Name) and c.func.value.id == "self" and c.func.attr.startswith("_") and c.func.attr in bld.methods:
+            cn = cfg.node_of(c)
+            if cn is not None and all(cfg.dominates(cn.id, w.id) for w in first_writes):
+                check_cfgs.append(ctx.cfg(bld.methods[c.func.attr]))
     for pred, what in want.items():
-        ts = [e for e in cfg.nodes if e.kind == "T" and isinstance(e.ast, ast.Call) and isinstance(e.ast.func, ast.Attribute) and e.ast.func.attr == pred]
-        if ts and all(cfg.inevitably_raises(t.id) for t in ts):
+        found = False
+        for k in check_cfgs:
+            ts = [e for e in k.nodes if e.kind == "T" and isinstance(e.ast, ast.Call) and isinstance(e.ast.func, ast.Attribute) and e.ast.func.attr == pred]
+            if ts and all(k.inevitably_raises(t.id) for t in ts):
+                found = True
+        if found:
             r.ok("add_argument: %s rejects" % pred)
         else:
             r.fail(m, m.node, "add_argument: no %s check" % pred, "add_argument does not reject when %s" % what)
     # required-after-optional only for required arguments
-    req = [e for e in cfg.nodes if e.kind == "T" and isinstance(e.ast, ast.Call) and isinstance(e.ast.func, ast.Attribute) and e.ast.func.attr == "is_required"]
-    opt_t = [e for e in cfg.nodes if e.kind == "cond" and isinstance(e.ast, ast.Call) and isinstance(e.ast.func, ast.Attribute) and e.ast.func.attr == "has_optional_argument"]
-    if req and opt_t and all(any(cfg.dominates(t.id, c.id) for t in req) for c in opt_t):
-        r.ok("add_argument: optional-argument test applies to required arguments only")
+    for k in check_cfgs:
+        req = [e for e in k.nodes if e.kind == "T" and isinstance(e.ast, ast.Call) and isinstance(e.ast.func, ast.Attribute) and e.ast.func.attr == "is_required"]
+        opt_t = [e for e in k.nodes if e.kind == "cond" and isinstance(e.ast, ast.Call) and isinstance(e.ast.func, ast.Attribute) and e.ast.func.attr == "has_optional_argument"]
+        if req and opt_t and all(any(k.dominates(t.id, c.id) for t in req) for c in opt_t):
+            r.ok("add_argument: optional-argument test applies to required arguments only")
     # the two markers are set from the element's own predicates
     for query, pred in (("has_multi_valued_argument", "is_multi_valued"), ("has_optional_argument", "is_optional")):
         # the marker = the builder's own field behind the query
